@@ -5,6 +5,8 @@
  * LICENSE file in the root directory of this source tree.
  */
 
+#include <dispenso/detail/verif_hooks.h>
+
 namespace dispenso {
 namespace detail {
 
@@ -224,6 +226,7 @@ whenAllIterators(Invoker& invoker, InputIt first, InputIt last) {
   };
 
   ResultFuture res(std::move(whenComplete), invoker);
+  DISPENSO_VERIF_HOOK("fut.when_all", &res, &shared->count, shared->vec.size());
 
   shared->f = std::move(invoker.savedOffFn);
   for (auto& s : shared->vec) {
@@ -323,6 +326,7 @@ Future<size_t> whenAnyIterators(Invoker& invoker, InputIt first, InputIt last) {
   };
 
   ResultFuture res(std::move(whenComplete), invoker);
+  DISPENSO_VERIF_HOOK("fut.when_any", &res, &shared->winner, shared->vec.size());
 
   shared->f = std::move(invoker.savedOffFn);
   for (size_t i = 0; i < shared->vec.size(); ++i) {
